@@ -22,7 +22,15 @@ impl PartialEq for KK { fn eq(&self, o: &Self) -> bool { self.0 == o.0 } }
 impl Eq for KK {}
 impl PartialOrd for KK { fn partial_cmp(&self, o: &Self) -> Option<Ordering> { Some(self.cmp(o)) } }
 impl Ord for KK { fn cmp(&self, o: &Self) -> Ordering { self.0.cmp(&o.0) } }
-impl ExpiredKey<i32> for KK { fn expiration(&self) -> i32 { self.1 } }
+// fault injection: when armed, the n-th call of the expiration accessor panics (C18)
+thread_local! { static FUSE: std::cell::Cell<i64> = std::cell::Cell::new(-1); }
+fn arm(n: i64) { FUSE.with(|f| f.set(n)); }
+impl ExpiredKey<i32> for KK {
+    fn expiration(&self) -> i32 {
+        FUSE.with(|f| { let v = f.get(); if v == 0 { f.set(-1); panic!("injected panic in expiration()"); } if v > 0 { f.set(v - 1); } });
+        self.1
+    }
+}
 
 // ---------------------------------------------------------------------------------------------------------------
 // bounded stand-in: KeyExpList::clear_expired against its contract
@@ -68,6 +76,49 @@ fn clear_expired_bounded(max_n: usize, tpoints: i32) -> (u64, u64, Option<String
         }
     }
     (cases, nontrivial, None)
+}
+
+// bounded stand-in (C18): a panic of the user's expiration accessor at any call index inside clear_expired leaves the list
+// valid and un-torn: the buffer still holds every live entry (in order, nothing duplicated), and the cached minimum is still a
+// lower bound of the stored expirations (so nothing expired can be observed later through the early-out)
+fn clear_expired_panic_bounded(max_n: usize, tpoints: i32) -> (u64, u64, Option<String>) {
+    let mut cases: u64 = 0;
+    let mut injected: u64 = 0;
+    std::panic::set_hook(Box::new(|_| {}));
+    for n in 1..=max_n {
+        let mut exps = vec![0i32; n];
+        loop {
+            let min_e = *exps.iter().min().unwrap();
+            for time in 0..tpoints {
+                for lb in [0, min_e] {
+                    for fuse in 0..(n as i64 + 1) {
+                        let mut l = KeyExpList::<KK, i32, i32>::new(4);
+                        for (k, &e) in exps.iter().enumerate() { l.buffer.push(Entity::new(KK(k as i32, e), 100 + k as i32)); }
+                        l.min_exp = lb;
+                        arm(fuse);
+                        let r = std::panic::catch_unwind(std::panic::AssertUnwindSafe(|| l.clear_expired(time)));
+                        arm(-1);
+                        cases += 1;
+                        if r.is_err() { injected += 1; }
+                        let got: Vec<(i32, i32)> = l.buffer.iter().map(|e| (e.key.0, e.key.1)).collect();
+                        let sorted = got.windows(2).all(|w| w[0].0 < w[1].0);
+                        let all_live_kept = exps.iter().enumerate().filter(|(_, &e)| e > time).all(|(k, &e)| got.contains(&(k as i32, e)));
+                        let only_original = got.iter().all(|(k, e)| (*k as usize) < n && exps[*k as usize] == *e);
+                        let lb_ok = l.buffer.iter().all(|e| l.min_exp <= e.key.1);
+                        if !(sorted && all_live_kept && only_original && lb_ok) {
+                            std::panic::take_hook();
+                            return (cases, injected, Some(format!("exps={:?} min_exp={} time={} panic at expiration() call #{} -> buffer={:?} min_exp'={} (sorted={} live kept={} lower bound ok={})", exps, lb, time, fuse, got, l.min_exp, sorted, all_live_kept, lb_ok)));
+                        }
+                    }
+                }
+            }
+            let mut i = 0;
+            loop { if i == n { break; } exps[i] += 1; if exps[i] < tpoints { break; } exps[i] = 0; i += 1; }
+            if i == n { break; }
+        }
+    }
+    let _ = std::panic::take_hook();
+    (cases, injected, None)
 }
 
 // ---------------------------------------------------------------------------------------------------------------
@@ -256,7 +307,7 @@ fn explore_key(seed: u64, steps: usize, nkeys: i32) -> Result<(), String> {
             }
         }
         match key_tree_wf(&t) {
-            Err(e) => return Err(format!("[C02,C11] {}-> invariant broken: {}", hist, e)),
+            Err(e) => return Err(format!("[C02,C11{}] {}-> invariant broken: {}", if hist.ends_with("clear(); ") { ",C12" } else { "" }, hist, e)),
             Ok(n) => {
                 peak = peak.max(n).max(model.len());
                 if t.store.buffer.len() > 4 * peak + 64 { return Err(format!("[C11] {}-> {} slots allocated for a peak of {} entries", hist, t.store.buffer.len(), peak)); }
@@ -331,7 +382,7 @@ fn explore_map(seed: u64, steps: usize, nkeys: i32) -> Result<(), String> {
             }
         }
         match map_tree_wf(&t) {
-            Err(e) => return Err(format!("[C02,C11] {}-> invariant broken: {}", hist, e)),
+            Err(e) => return Err(format!("[C02,C11{}] {}-> invariant broken: {}", if hist.ends_with("clear(); ") { ",C12" } else { "" }, hist, e)),
             Ok(n) => { if n != model.len() { return Err(format!("[C04,C11] {}-> {} entries stored, {} expected", hist, n, model.len())); } }
         }
         for (kk, vv) in model.iter() { if t.get_value(*kk) != Some(vv) { return Err(format!("[C04] {}-> key {} lost or altered", hist, kk)); } }
@@ -397,7 +448,7 @@ fn explore_set(seed: u64, steps: usize, nkeys: i32) -> Result<(), String> {
             _ => { if t.is_empty() != model.is_empty() { return Err(format!("[C05] {}-> is_empty {} with {} entries", hist, t.is_empty(), model.len())); } }
         }
         match set_tree_wf(&t) {
-            Err(e) => return Err(format!("[C02,C11] {}-> invariant broken: {}", hist, e)),
+            Err(e) => return Err(format!("[C02,C11{}] {}-> invariant broken: {}", if hist.ends_with("clear(); ") { ",C12" } else { "" }, hist, e)),
             Ok(n) => { if n != model.len() { return Err(format!("[C05,C11] {}-> {} entries stored, {} expected", hist, n, model.len())); } }
         }
     }
@@ -480,6 +531,15 @@ fn main() {
             let (cases, nontrivial, fail) = clear_expired_bounded(max_n, tp);
             match fail {
                 None => println!("{{\"ok\": true, \"cases\": {}, \"nontrivial\": {}, \"max_n\": {}, \"tpoints\": {}}}", cases, nontrivial, max_n, tp),
+                Some(f) => { println!("{{\"ok\": false, \"cases\": {}, \"counterexample\": {:?}}}", cases, f); std::process::exit(1); }
+            }
+        }
+        Some("clear-expired-panic") => {
+            let max_n: usize = args[2].parse().unwrap();
+            let tp: i32 = args[3].parse().unwrap();
+            let (cases, injected, fail) = clear_expired_panic_bounded(max_n, tp);
+            match fail {
+                None => println!("{{\"ok\": true, \"cases\": {}, \"nontrivial\": {}, \"max_n\": {}, \"tpoints\": {}}}", cases, injected, max_n, tp),
                 Some(f) => { println!("{{\"ok\": false, \"cases\": {}, \"counterexample\": {:?}}}", cases, f); std::process::exit(1); }
             }
         }
